@@ -132,6 +132,20 @@ def _structure_job(args):
             Pm = G.copy()
             Pm[1:, 0, 0] = 0
             measure(rec, "imaginary-subcolumn", {"A": Pm.tolist()}, Pm)
+    # block structures: columns that stay exactly zero below the sub-diagonal while reduced columns precede AND follow them
+    for blocks in ((3, 3), (3, 4), (4, 3), (2, 5)) + (((5, 4), (3, 3, 3)) if thorough else ()):
+        n = sum(blocks)
+        G = rng.standard_normal((n, n, 4))
+        off = np.cumsum((0,) + blocks)
+        BT = np.zeros((n, n, 4))
+        BD = np.zeros((n, n, 4))
+        for bi in range(len(blocks)):
+            r0, r1 = off[bi], off[bi + 1]
+            BD[r0:r1, r0:r1] = G[r0:r1, r0:r1]
+            BT[r0:r1, r0:] = G[r0:r1, r0:]
+        measure(rec, "block-structure", {"which": "block upper triangular", "blocks": list(blocks), "A": BT.tolist()}, BT)
+        measure(rec, "block-structure", {"which": "block diagonal", "blocks": list(blocks), "A": BD.tolist()}, BD)
+        measure(rec, "block-structure", {"which": "block lower triangular", "blocks": list(blocks)}, np.transpose(BT, (1, 0, 2)).copy())
     for _ in range(40 if thorough else 8):
         n = int(rng.integers(1, 8))
         A = rng.standard_normal((n, n, 4)) * 10.0 ** rng.integers(-8, 9)
